@@ -25,6 +25,11 @@ func appendEval(root map[string]any, at any, args ...any) any {
 		panic(fmt.Errorf("append expected an array argument, not a %T", v))
 	}
 	v = evalArg(root, at, args[1])
+	// A new array: the built-in append would write into spare capacity of
+	// the argument's backing array, which an earlier result may share.
+	out := make([]any, len(list)+1)
+	copy(out, list)
+	out[len(list)] = v
 
-	return append(list, v)
+	return out
 }
